@@ -103,29 +103,35 @@ def sc_posterior(d, kind, n, nq, weights):
     d.witness(len(lab) == 1, "one_label")
 
 
-def make_unfittable(npm):
+def make_unfittable(npm, partial=False):
+    """partial=True models estimators such as sklearn's RANSACRegressor (one labeled sample): fit sets some fitted
+    attributes and then fails, so that a later predict passes check_is_fitted and dies with an AttributeError"""
     from sklearn.base import BaseEstimator, RegressorMixin
     from sklearn.exceptions import NotFittedError
 
     class Unfittable(RegressorMixin, BaseEstimator):
         def fit(self, X, y, sample_weight=None):
+            if partial:
+                self.n_trials_ = 0
             raise ValueError("this estimator cannot be fitted")
 
         def predict(self, X, return_std=False):
-            raise NotFittedError("not fitted")
+            if not hasattr(self, "n_trials_"):
+                raise NotFittedError("not fitted")
+            return self.model_.predict(X)
 
         def sample_y(self, X, n_samples=1, random_state=None):
             raise NotFittedError("not fitted")
     return Unfittable()
 
 
-def sc_fallback(d, n, nq, normal):
+def sc_fallback(d, n, nq, normal, partial=False):
     import skactiveml.regressor as R
     miss, yv, y, lab = _targets(d, n)
     xs = [d.fl(f"x{i}") for i in range(n)]
     X = d.arr([[x] for x in xs], shape=(n, 1))
     Kc = R.SklearnNormalRegressor if normal else R.SklearnRegressor
-    reg = Kc(make_unfittable(d.np))
+    reg = Kc(make_unfittable(d.np, partial))
     try:
         reg.fit(X, y)
     except Exception as e:
@@ -179,7 +185,7 @@ HARNESSES = [
                                if not (k == "nic_symbolic_prior" and n > 2)],
                  UNITS[:7], required_witnesses=("no_labels", "one_label"), timeout_ms=60000, product_abstraction=True),
     dual_harness("wrapper_fallback", sc_fallback,
-                 lambda tier: [dict(n=n, nq=2, normal=nm) for n in ((1, 2, 3) if tier == "quick" else (1, 2, 3, 4)) for nm in (False, True)],
+                 lambda tier: [dict(n=n, nq=2, normal=nm, partial=pt) for n in ((1, 2, 3) if tier == "quick" else (1, 2, 3, 4)) for nm in (False, True) for pt in (False, True)],
                  UNITS[7:], required_witnesses=("no_labels",)),
 ]
 BOUNDS = dict(quick="n_train <= 2 (wrapper fallback <= 3), 1-2 query points, every missing pattern, symbolic features and targets, "
